@@ -42,8 +42,68 @@ let show_out o op =
   | Rej, _ -> "R"
   | Undef, _ -> "U"
 let show_keys l = if l = [] then "-" else String.concat "," (Stdlib.List.map string_of_z l)
+(* ---- Arr.v ---- *)
+let parse_aop tok = let open Arr in
+  match String.split_on_char ',' tok with
+  | ["begin"; s] -> ABegin (n s) | ["end"; s] -> AEnd (n s) | ["def"; s] -> ADefault (n s) | ["foreign"; s] -> AForeign (n s)
+  | ["adv"; s; d] -> AAdvance (n s, z d) | ["deref"; s] -> ADeref (n s)
+  | ["diff"; a; b] -> ADiff (n a, n b) | ["less"; a; b] -> ALess (n a, n b)
+  | ["idx"; i] -> AIndex (z i) | ["back"] -> ABack | ["addback"; v] -> AAddBack (z v) | ["rmback"; c] -> ARemoveBack (z c)
+  | ["ins"; i; v] -> AInsert (z i, z v) | ["rm"; i; c] -> ARemove (z i, z c) | ["clear"] -> AClear | ["setcount"; c] -> ASetCount (z c)
+  | _ -> failwith ("bad op " ^ tok)
+let run_arr toks = let open Arr in
+  let ops = Stdlib.List.map parse_aop toks in
+  let (s, outs) = arun_out ainit ops in
+  Printf.printf "%s| %s\n"
+    (String.concat "" (Stdlib.List.map (fun o -> (match o with AAcc (Some v) -> "A=" ^ string_of_z v | AAcc None -> "A" | ARej -> "R") ^ " ") outs))
+    (show_keys s.items)
+(* ---- MultiMap.v ---- *)
+let parse_mop tok = let open MultiMap in
+  match String.split_on_char ',' tok with
+  | ["find"; k; s] -> MFind (z k, n s) | ["end"; s] -> MEnd (n s) | ["fk"; s] -> MForeignK (n s) | ["fv"; s] -> MForeignV (n s)
+  | ["makeit"; sk; i; s] -> MMakeIt (n sk, n i, n s)
+  | ["kderef"; s] -> MKDeref (n s) | ["kinc"; s] -> MKInc (n s) | ["vderef"; s] -> MVDeref (n s) | ["vinc"; s] -> MVInc (n s)
+  | ["add"; k; v; s] -> MAdd (z k, z v, n s) | ["addat"; sk; v; s] -> MAddAt (n sk, z v, n s) | ["inskey"; k; s] -> MInsertKey (z k, n s)
+  | ["rmit"; s] -> MRemoveIt (n s) | ["rmki"; sk; i] -> MRemoveKI (n sk, n i) | ["rmvals"; sk] -> MRemoveValues (n sk)
+  | ["rmkeyit"; sk] -> MRemoveKeyIt (n sk) | ["rmkey"; k] -> MRemoveKey (z k) | ["rmif"; m] -> MRemoveIf (z m) | ["clear"] -> MClear
+  | ["reset"; sk; k] -> MResetKey (n sk, z k) | ["chk"; s; a] -> MChkIt (n s, b a) | ["count"] -> MCount
+  | _ -> failwith ("bad op " ^ tok)
+let run_mm toks = let open MultiMap in
+  let ops = Stdlib.List.map parse_mop toks in
+  let (s, outs) = mrun_out minit ops in
+  let show o op = match o, op with
+    | MAcc _, (MMakeIt _ | MAdd _ | MAddAt _ | MEnd _ | MForeignK _ | MForeignV _) -> "A"
+    | MAcc (Some v), _ -> "A=" ^ string_of_z v | MAcc None, _ -> "A" | MRej, _ -> "R" | MUndef, _ -> "U" in
+  let ent (k, vs) = string_of_z k ^ ":" ^ String.concat "," (Stdlib.List.map string_of_int (Stdlib.List.sort compare (Stdlib.List.map int_of_z vs))) in
+  Printf.printf "%s| %d %d | %s\n"
+    (String.concat "" (Stdlib.List.map2 (fun o op -> show o op ^ " ") outs ops))
+    (int_of_nat s.kver) (int_of_nat s.vver)
+    (if s.ents = [] then "-" else String.concat ";" (Stdlib.List.map ent s.ents))
+(* ---- Table.v ---- *)
+let parse_top tok = let open Table in
+  match String.split_on_char ',' tok with
+  | ["ref"; i; s] -> TRef (n i, n s) | ["select"; s] -> TSelect (n s) | ["foreign"; s] -> TForeign (n s)
+  | ["selref"; ss; j; s] -> TSelRef (n ss, n j, n s) | ["read"; s] -> TRead (n s) | ["number"; s] -> TGetNumber (n s)
+  | ["addrow"; v] -> TAddRow (z v) | ["insert"; i; v] -> TInsert (n i, z v)
+  | ["rmref"; s] | ["rmref"; s; _] -> TRemoveRef (n s) | ["rmnum"; i] -> TRemoveNum (n i)
+  | ["updref"; s; v] -> TUpdateRef (n s, z v) | ["updnum"; i; v] -> TUpdateNum (n i, z v)
+  | ["rmif"; m] -> TRemoveIf (z m) | ["clear"] -> TClear | ["count"] -> TCount
+  | _ -> failwith ("bad op " ^ tok)
+let run_dt toks = let open Table in
+  let ops = Stdlib.List.map parse_top toks in
+  let (s, outs) = trun_out tinit ops in
+  let show o op = match o, op with
+    | TAcc _, (TRef _ | TForeign _ | TSelRef _) -> "A"
+    | TAcc (Some v), _ -> "A=" ^ string_of_z v | TAcc None, _ -> "A" | TRej, _ -> "R" | TUndef, _ -> "U" in
+  Printf.printf "%s| %d %d | %s\n"
+    (String.concat "" (Stdlib.List.map2 (fun o op -> show o op ^ " ") outs ops))
+    (int_of_nat s.cver) (int_of_nat s.rver) (show_keys (Stdlib.List.map snd s.rows))
+
 let () = iter_lines (fun line ->
   match words line with
+  | ("arh" | "aih" | "sah") :: toks -> (try run_arr toks with Failure m -> print_endline ("?" ^ m))
+  | "mmh" :: toks -> (try run_mm toks with Failure m -> print_endline ("?" ^ m))
+  | "dth" :: toks -> (try run_dt toks with Failure m -> print_endline ("?" ^ m))
   | kind :: toks ->
     (try
       let k = (match kind with "hs" | "hm" -> KHash | "ts" | "tm" -> KTree | _ -> failwith "kind") in
